@@ -1,6 +1,7 @@
 import MorfuseModel.Sched.MachineInvAll
 import MorfuseModel.Sched.MachineHostFrame
 import MorfuseModel.Sched.Snapshot
+import MorfuseModel.Sched.HostOps
 /-!
 # The machine at the host level: every host operation keeps the machine-level invariant
 
@@ -34,35 +35,7 @@ instance (i : Instr) : Decidable i.ok := by
 instance (p : List (List Instr)) : Decidable (ProgOK p) := by
   unfold ProgOK; infer_instance
 
-/-! ### the host operations -/
-
-/-- `director.ExecuteThread(script, label)` without a host `Event`: the result cell is dropped -/
-def hostCallV (s : State) (label : Nat) : State :=
-  let c := s.nextCall
-  let s' := (hostCall s label []).1
-  { s' with threads := s'.threads.map (fun e => (e.1, if e.2.call == some c then { e.2 with call := none } else e.2)) }
-
-inductive HostOp
-  | reset                                                 -- a new context
-  | script (prog : List (List Instr)) (params : List Nat) -- compile / recompile
-  | call (label : Nat) (args : List V)
-  | callv (label : Nat)
-  | advance (ms : Nat)                                    -- the injected clock moves
-  | resetDirector                                         -- `director.Reset()`
-  | execute                                               -- `ScriptContext::Execute()`
-  | step (ms : Nat)                                       -- advance, then execute
-  | takeOut                                               -- the driver reads and clears the output
-
-def HostOp.apply (s : State) : HostOp → State
-  | .reset => {}
-  | .script p ps => hostScript s p ps
-  | .call l args => (hostCall s l args).1
-  | .callv l => hostCallV s l
-  | .advance k => { s with clock := s.clock + k }
-  | .resetDirector => hostReset s
-  | .execute => hostExecute s
-  | .step k => hostExecute { s with clock := s.clock + k }
-  | .takeOut => { s with out := [] }
+/-! ### the host operations: `HostOp`, `HostOp.apply` are in `Sched/HostOps.lean` (shared with the driver) -/
 
 /-- the side condition of an operation: compiled programs are of class `ProgOK` -/
 def HostOp.ok : HostOp → Prop
@@ -291,6 +264,11 @@ theorem hostCall_eq (s : State) (label : Nat) (args : List V) :
       if label ≥ s.prog.length then s
       else callFinish (scriptExecuteInternal defaultFuel (callSetup s label args) s.nextTid) s.nextCall := by
   unfold hostCall
+  split <;> rfl
+
+theorem hostCall_status (s : State) (label : Nat) (args : List V) :
+    (hostCall s label args).2 = hostCallStatus s label := by
+  unfold hostCall hostCallStatus
   split <;> rfl
 
 theorem callFinish_hr (s : State) (c : Nat) : HR s (callFinish s c) := by
